@@ -21,14 +21,14 @@ def run(tier, replay_file=None):
     RS3 = '{<<0,0,TRUE,100>>, <<0,1,TRUE,50>>, <<1,1,FALSE,25>>}'
     R.cov["states"], R.cov["transitions"] = 0, 0
     for (mi, me, ms) in ([(3, 0, 6)] if quick else [(3, 0, 6), (2, 1, 4), (3, 0, 9)]):
-        mc = tlc.run("Abm", dict(consts(mi, me, ms, 1, runspecs=RS3, ahead=1), L='99'),
+        mc = tlc.run("Abm", dict(consts(mi, me, ms, 1, runspecs=RS3, ahead=1), L='0'),
                      invariants=INVS, view="ViewEv", spec="Spec", timeout=7200)
         if mc.violation:
             R.violation("spec:" + mc.violation, {"trace": mc.trace[:3000]})
         R.cov["states"] += mc.distinct
         R.cov["transitions"] += mc.generated
     if not quick:
-        cv = tlc.run("Abm", dict(consts(2, 0, 3, 1, runspecs='{<<0,0,TRUE,100>>, <<0,1,TRUE,50>>}', ahead=1), L='99'),
+        cv = tlc.run("Abm", dict(consts(2, 0, 3, 1, runspecs='{<<0,0,TRUE,100>>, <<0,1,TRUE,50>>}', ahead=1), L='0'),
                      invariants=INVS, view="ViewEv", spec="Spec", timeout=3000, coverage=True)
         R.cov["tlc_actions"] = {k: v[1] for k, v in cv.coverage.items() if v[1] > 0 and k != "Init"}
         for must in ("Create", "DoDelete", "DoRun", "RunStep", "DoPlanDel", "DoPlanNew"):
